@@ -59,3 +59,8 @@ Qed.
 Lemma go_RetrieveWithHelpers_loop_outside_fragment : forall T i ids ts h,
   run_fun gen_funs (da_globals T) "RetrieveWithHelpers" None [VUnit; VDAGetIDs (Proxy.GRes (i :: ids) ts); VUnit; VN h; VUnit] = None.
 Proof. intros; glazy; reflexivity. Qed.
+
+(* every lemma is closed under the global context (bin/tr-golite fails on any "Axioms:" line) *)
+Print Assumptions go_SubmitWithHelpers.
+Print Assumptions go_RetrieveWithHelpers_no_ids.
+Print Assumptions go_RetrieveWithHelpers_loop_outside_fragment.
